@@ -172,8 +172,9 @@ class Sites:
 class Run:
     """One controlled execution of run_function_on_graph."""
 
-    def __init__(self, uj_rfg, sites, chooser, pause_in_fn=True, opcodes=True):
+    def __init__(self, uj_rfg, sites, chooser, pause_in_fn=True, opcodes=True, extra_files=()):
         self.opcodes = opcodes
+        self.extra_files = set(extra_files)      # further source files whose frames yield at every bytecode (e.g. caching.py)
         self.rfg = uj_rfg
         self.sites = sites
         self.sched = Sched(chooser)
@@ -190,7 +191,16 @@ class Run:
         return self.sched.cur.name
 
     # -- tracing
+    def local_extra(self, frame, event, arg):
+        sc = self.sched
+        if threading.current_thread() is self._owner(sc.cur) and event in ("line", "opcode") and not sc.deadlock:
+            sc.yield_point()
+        return self.local_extra
+
     def tracer(self, frame, event, arg):
+        if frame.f_code.co_filename in self.extra_files:
+            frame.f_trace_opcodes = True
+            return self.local_extra
         if frame.f_code.co_filename != self.sites.file:
             return None
         frame.f_trace_opcodes = self.opcodes
